@@ -71,7 +71,7 @@ example : ∃ eid, slice (fmtEntry id1 id2 5 7) 3 67 = some eid ∧ hexDecode ei
 /-- `get` only succeeds on the index file of that id, through `parseEntry`. -/
 theorem get_ok (fs : FS) (now : Int) (id : Hash) (e : Entry) (fs' : FS) (h : get fs now id = (.ok e, fs')) :
     ∃ f, fs.get (fileName id keyA) = some f ∧ parseEntry id f.data = .ok e := by
-  unfold get at h
+  unfold Cache.get at h
   split at h
   · cases h
   · rename_i f hf
@@ -87,6 +87,13 @@ example : ∃ f, (FS.empty.set (fileName id1 keyA) ⟨fmtEntry id1 id2 5 7, 0⟩
 
 /-! ### the gates: whatever state the files are in -/
 
+theorem ite_error_ok {α σ : Type} {c : Prop} [Decidable c] {r : Reason} {v v' : α} {s1 s2 s' : σ}
+    (h : (if c then ((Except.error r : Except Reason α), s1) else (Except.ok v, s2)) = (Except.ok v', s')) :
+    ¬ c ∧ v = v' ∧ s2 = s' := by
+  split at h
+  · cases h
+  · rename_i hc; cases h; exact ⟨hc, rfl, rfl⟩
+
 /-- GetBytes returns not-found or bytes whose hash is the reported OutputID — for every cache directory. -/
 theorem getBytes_gate (H : Bytes → Hash) (fs : FS) (now : Int) (id : Hash) (d : Bytes) (e : Entry) (fs' : FS)
     (h : getBytes H fs now id = (.ok (d, e), fs')) : H d = e.out := by
@@ -94,13 +101,11 @@ theorem getBytes_gate (H : Bytes → Hash) (fs : FS) (now : Int) (id : Hash) (d 
   split at h
   · cases h
   · simp only [] at h
-    split at h
-    · cases h
-    · rename_i hr
-      simp only [Prod.mk.injEq, Except.ok.injEq] at h
-      obtain ⟨⟨hd, he⟩, _⟩ := h
-      subst hd he
-      simpa [Gen.Cache.getBytesReject] using hr
+    obtain ⟨hr, hv, _⟩ := ite_error_ok h
+    simp only [Prod.mk.injEq] at hv
+    obtain ⟨hd, he⟩ := hv
+    subst hd he
+    simpa [Gen.Cache.getBytesReject] using hr
 
 /-- GetFile returns not-found or the name of a file whose length is the reported size — for every cache directory. -/
 theorem getFile_gate (fs : FS) (now : Int) (id : Hash) (f : Bytes) (e : Entry) (fs' : FS)
@@ -128,9 +133,8 @@ def exFS : FS := (FS.empty.set (fileName id1 keyA) ⟨fmtEntry id1 (toyH [65]) 1
 
 theorem exFS_stored : Stored toyH exFS id1 [65] := by
   refine ⟨⟨7, by decide, by decide, ?_⟩, ?_, by decide⟩
-  · simp only [exFS, dataOf_set, dataOf, FS.get_empty, Option.map_none]
-    rw [if_neg (fileName_a_ne_d _ _), if_pos rfl]; rfl
-  · simp only [exFS, dataOf_set]; rw [if_pos rfl]
+  · simp [exFS, dataOf, FS.get_set, fileName_a_ne_d]
+  · simp [exFS, dataOf, FS.get_set]
 
 example : ∃ d e fs', getBytes toyH exFS 100 id1 = (.ok (d, e), fs') := by
   obtain ⟨t, ht⟩ := exFS_stored.getBytes 100
@@ -148,23 +152,30 @@ theorem lookup_total (H : Bytes → Hash) (fs : FS) (now : Int) (id : Hash) :
     (get fs now id).1 ≠ .error .panic ∧ (getFile fs now id).1 ≠ .error .panic ∧
     (getBytes H fs now id).1 ≠ .error .panic ∧ ∀ data, parseEntry id data ≠ .error .panic := by
   have hp := parseEntry_ne_panic id
+  have hr : ∀ r fs1, get fs now id = (.error r, fs1) → r ≠ .panic := by
+    intro r fs1 h
+    unfold Cache.get at h
+    split at h
+    · cases h; simp
+    · split at h
+      · rename_i r' hr'; cases h; intro hh; subst hh; exact hp _ hr'
+      · cases h
   have hg : (get fs now id).1 ≠ .error .panic := by
-    unfold get
-    split
-    · simp
-    · split
-      · rename_i r h; intro h'; simp only at h'; cases h'; exact hp _ h
-      · simp
+    cases h : get fs now id with
+    | mk r fs1 =>
+      cases r with
+      | ok e => simp
+      | error r => simp only [ne_eq, Except.error.injEq]; exact hr r fs1 h
   refine ⟨hg, ?_, ?_, hp⟩
   · unfold getFile
     split
-    · rename_i r fs1 h; rw [h] at hg; exact hg
+    · rename_i r fs1 h; simp only [ne_eq, Except.error.injEq]; exact hr r fs1 h
     · simp only []
       repeat' split
       all_goals simp
   · unfold getBytes
     split
-    · rename_i r fs1 h; rw [h] at hg; exact hg
+    · rename_i r fs1 h; simp only [ne_eq, Except.error.injEq]; exact hr r fs1 h
     · simp only []
       repeat' split
       all_goals simp
@@ -190,7 +201,7 @@ theorem put_get (H : Bytes → Hash) (fs : FS) (now : Int) (id : Hash) (data : B
   obtain ⟨fs', hp, hidx, hdat, _⟩ := put_spec H fs now id data hcoll
   refine ⟨fs', hp, fun fs'' hs now' => ?_⟩
   have hst : Stored H fs'' id data :=
-    (⟨⟨now, hn0, hn1, hidx⟩, hdat, hlen⟩ : Stored H fs' id data).of_sameData hs
+    Stored.of_sameData (show Stored H fs' id data from ⟨⟨now, hn0, hn1, hidx⟩, hdat, hlen⟩) hs
   refine ⟨hst.getBytes now', hst.getFile now', ?_⟩
   rw [getFile_sameData]; exact hst.2.1
 
